@@ -462,7 +462,7 @@ func init() {
 		CoqType: "list (Z * Z * Z) * list Z", CoqRun: "Check.C21.run",
 		Quick: 150, Thorough: 6000, Parallel: 1, Timeout: 120 * time.Second,
 		Corpus: func() []c21Case {
-			u := c21Thread{2, 2, 1} // ice checking, dtls new: computes "connecting"
+			u := c21Thread{2, 2, 1}  // ice checking, dtls new: computes "connecting"
 			un := c21Thread{2, 1, 1} // computes "new" (the initial value)
 			cl, gr := c21Thread{Kind: 0}, c21Thread{Kind: 1}
 			return []c21Case{
